@@ -2,6 +2,7 @@ package rules
 
 import (
 	"fmt"
+	"go/types"
 
 	"golang.org/x/tools/go/ssa"
 
@@ -97,5 +98,53 @@ func runAccum(c *core.Ctx) []core.Obligation {
 	if total < 6 {
 		obs = append(obs, core.Ob("R-ACCUM", "anchor", "-", "", core.Violated, fmt.Sprintf("only %d accumulator updates found", total)))
 	}
+	obs = append(obs, vertexOnlyBounds(c)...)
+	return obs
+}
+
+
+// vertexOnlyBounds (after round-7 seed C05-r7m1, Polyline.IntersectsCell rejecting a cell whose RectBound does not meet
+// a rectangle grown from the polyline's vertices with Rect.AddPoint): a geodesic edge rises poleward of both its
+// endpoints, so a lat-lng rectangle grown vertex by vertex is NOT a bound of the edges between the vertices - that is
+// what RectBounder exists for. (s2.Rect).AddPoint is therefore not called from a method of a type that has edges
+// (Polyline, Loop, Polygon, the lax shapes, ShapeIndexRegion); point sets (ConvexHullQuery) and RectBounder itself,
+// which adds the edge's interior separately, may use it.
+func vertexOnlyBounds(c *core.Ctx) []core.Obligation {
+	var obs []core.Obligation
+	edged := map[string]bool{"Polyline": true, "Loop": true, "Polygon": true, "LaxLoop": true, "LaxPolygon": true, "LaxPolyline": true, "ShapeIndexRegion": true, "EdgeVectorShape": true}
+	callers := 0
+	for _, fn := range c.GeoFuncs() {
+		n := 0
+		core.AllInstrs(fn, func(in ssa.Instruction) {
+			call, ok := in.(*ssa.Call)
+			if !ok {
+				return
+			}
+			f := core.StaticCallee(call)
+			if f == nil || f.Name() != "AddPoint" || f.Signature.Recv() == nil || !core.IsNamed(f.Signature.Recv().Type(), "s2", "Rect") {
+				return
+			}
+			callers++
+			recv := fn.Signature.Recv()
+			if fn.Parent() != nil {
+				recv = fn.Parent().Signature.Recv()
+			}
+			if recv == nil {
+				return
+			}
+			t := recv.Type()
+			if p, ok := t.(*types.Pointer); ok {
+				t = p.Elem()
+			}
+			named, ok := t.(*types.Named)
+			if !ok || !edged[named.Obj().Name()] {
+				return
+			}
+			n++
+			obs = append(obs, core.Ob("R-ACCUM", fmt.Sprintf("vertex-only-bound:%s#%d", core.FuncName(fn), n), c.Pos(call.Pos()), core.FuncName(fn), core.Violated,
+				"a method of "+named.Obj().Name()+" grows a lat-lng rectangle from vertices with Rect.AddPoint: the edges between the vertices bulge towards the pole beyond both endpoints (an edge from 60N,0E to 60N,60E reaches 63.4N), so the rectangle is not a bound of the geometry and any decision based on it (rejecting a cell, skipping a region) loses the part of the edge outside it; use RectBounder"))
+		})
+	}
+	obs = append(obs, core.Ob("R-ACCUM", "vertex-only-bound:scan", "-", "", core.Discharged, fmt.Sprintf("%d calls of (s2.Rect).AddPoint, none from a method of a type with edges", callers)))
 	return obs
 }
